@@ -224,3 +224,29 @@ Qed.
 Lemma streaming_timeout_respected c t :
   effective_timeout (set_streaming_response_timeout c t) true = stream_limit t.
 Proof. reflexivity. Qed.
+
+(* ------------------------------------------------ the response timer *)
+(* unsolicited replies must not postpone the read timeout of the requests
+   that are waiting *)
+Definition junk_keeps_deadline : Prop :=
+  forall timeout start arrivals, junk_deadline timeout start arrivals = start + timeout.
+
+Lemma junk_keeps_deadline_if_known_only :
+  timer_reset_requires_known_id = true -> junk_keeps_deadline.
+Proof.
+  intros H timeout start arrivals. induction arrivals as [|t rest IH]; cbn [junk_deadline]; [reflexivity|].
+  destruct (run_timeout_fires (t - start) timeout); [reflexivity|].
+  unfold timer_after_reply. rewrite H. exact IH.
+Qed.
+
+(* the code as it is: the timer is reset before the ID is looked up; a peer
+   sending an unsolicited reply every 20 ms keeps a 60 ms timeout from firing *)
+Lemma junk_extends_deadline_refuted :
+  timer_reset_requires_known_id = false ->
+  junk_deadline 60 0 [20; 40; 60; 80; 100; 120; 140; 160; 180; 200] = 260 /\ ~ junk_keeps_deadline.
+Proof.
+  intros H.
+  assert (E : junk_deadline 60 0 [20; 40; 60; 80; 100; 120; 140; 160; 180; 200] = 260).
+  { cbn [junk_deadline]. unfold timer_after_reply. rewrite H. vm_compute. reflexivity. }
+  split; [exact E|]. intros Hk. rewrite (Hk 60 0 _) in E. discriminate.
+Qed.
